@@ -263,3 +263,88 @@ def crosscheck_golden(path):
                     if ext[intro].get(b) != gv:
                         bad.append("%s %s %02X: doc %r golden %r" % (d, nm, b, ext[intro].get(b), g))
     return bad
+
+
+class Ambiguous(Exception):
+    """The documents do not say whether this input is well formed."""
+
+
+def parse_program(dialect, data):
+    """Reference framing parser (doc/bbcbasic.5 FILE FORMAT / END OF FILE).
+
+    Returns the list of (line number, body) of a well-formed file; raises Reject
+    (with .lines = the complete lines before the fault) when the framing or a
+    token is definitely ill-formed, Ambiguous where the documents are silent."""
+    d = CANON[dialect]
+    lines = []
+    i = 0
+    n = len(data)
+
+    def reject(msg):
+        e = Reject(msg)
+        e.lines = list(lines)
+        return e
+    if n == 0:
+        return lines
+    if d in BIG_ENDIAN:
+        while True:
+            if i >= n:
+                raise reject("end of file before the end-of-program marker")
+            if data[i] != 0x0D:
+                raise reject("line does not start with 0x0D")
+            i += 1
+            if i >= n:
+                raise reject("end of file after 0x0D")
+            hi = data[i]
+            i += 1
+            if hi == 0xFF:
+                if i == n:
+                    return lines
+                raise Ambiguous("bytes after the 0x0D 0xFF marker")
+            if i + 2 > n:
+                raise reject("end of file in line header")
+            lo, ln = data[i], data[i + 1]
+            i += 2
+            if ln < 4:
+                raise reject("impossible line length")
+            body = data[i:i + ln - 4]
+            if len(body) < ln - 4:
+                raise reject("end of file inside a line")
+            i += ln - 4
+            try:
+                detokenise_line(dialect, body)
+            except Reject as ex:
+                raise reject(str(ex))
+            lines.append((hi * 256 + lo, bytes(body)))
+    else:
+        while True:
+            if i >= n:
+                raise reject("end of file before the end-of-program marker")
+            ln = data[i]
+            i += 1
+            if ln == 0:
+                if data[i:i + 2] != b"\xFF\xFF":
+                    raise reject("incomplete end-of-program marker")
+                if i + 2 == n:
+                    return lines
+                raise Ambiguous("bytes after the end-of-program marker")
+            if ln < 3:
+                raise reject("impossible line length")
+            if ln == 3:
+                raise Ambiguous("line of length 3 (no terminator at all)")
+            if i + 2 > n:
+                raise reject("end of file in line header")
+            lo, hi = data[i], data[i + 1]
+            i += 2
+            rest = data[i:i + ln - 3]
+            if len(rest) < ln - 3:
+                raise reject("end of file inside a line")
+            i += ln - 3
+            if rest[-1] != 0x0D:
+                raise reject("line does not end with 0x0D")
+            body = rest[:-1]
+            try:
+                detokenise_line(dialect, body)
+            except Reject as ex:
+                raise reject(str(ex))
+            lines.append((hi * 256 + lo, bytes(body)))
